@@ -4,7 +4,7 @@
    container, writer and reader), C05/TskFile.v (tskit's column schema layer). *)
 From Coq Require Import List ZArith Permutation Sorted.
 From TskVerif Require Import Base.Common Gen.Generated C05.Bytes C05.Kastore C05.KastoreProofs C05.TskFile
-  C05.TskProofs C05.StreamProofs C05.SearchProofs C05.Equals C05.EqualsProofs C10.TruncProofs.
+  C05.TskProofs C05.StreamProofs C05.SearchProofs C05.Equals C05.EqualsProofs C05.TableProofs C05.TcRoundtrip C10.TruncProofs.
 Import ListNotations.
 Open Scope Z_scope.
 
@@ -64,6 +64,19 @@ Theorem tc_roundtrip_partial : forall tc rest,
   enc_ok (tsk_dump tc) ->
   kas_decode (tsk_dump_bytes tc ++ rest) = Ok (sort_items (tsk_dump tc), rest).
 Proof. exact StreamProofs.tc_roundtrip_partial. Qed.
+
+(* (d) IN FULL: load (dump tc) = normalise tc for every well-formed table collection - every column
+   byte, offset, schema, metadata, time units, sequence length, uuid, index and reference sequence
+   (the all-empty reference sequence is the null one), with the stream left at the end of the
+   object.  [wf_tc] = the table invariant (equal column lengths, offsets from 0, non-decreasing, ending at
+   the data length), an 8-byte positive sequence length, a 36-byte uuid, one index entry per edge;
+   [enc_ok] = the items are what kastore_put accepts and fit below 2^64 bytes; the schema keys
+   are distinct.  Generic in the regenerated read/write schema of tables.c (its consistency is
+   checked by computation: TcRoundtrip.all_schemas_ok). *)
+Theorem tc_roundtrip : forall tc rest,
+  wf_tc tc -> enc_ok (tsk_dump tc) -> NoDup (map ikey (tsk_dump tc)) ->
+  tsk_load_bytes false false (tsk_dump_bytes tc ++ rest) = Ok (tc_normalise tc, rest).
+Proof. exact TcRoundtrip.tc_roundtrip. Qed.
 
 (* (e) several objects on one stream: each read consumes exactly one, then end-of-stream *)
 Theorem stream_multi : forall stores,
